@@ -5,7 +5,7 @@ patch="$1"
 cd /repo || exit 2
 if [ -n "$(git status --porcelain --untracked-files=no)" ]; then echo "repo dirty"; exit 2; fi
 git apply "$patch" || { echo "patch does not apply"; exit 3; }
-for p in C01 C02 C03 C04 C05 C07 C08 C09 C10 C11 C12 C13 C14 C15 C16 C17 C18; do
+for p in C01 C02 C03 C04 C05 C06 C07 C08 C09 C10 C11 C12 C13 C14 C15 C16 C17 C18; do
   /verif/check "$p" 2>&1 | grep -E "^\s*FAIL" | cut -c1-300 | sed "s/^/$p: /"
 done
 git checkout -- .
